@@ -176,8 +176,9 @@ def lex_listing(p, out: bytes):
     return entries, True
 
 
-def pool_map(fn, items, init_fn, procs=16):
+def pool_map(fn, items, init_fn, procs=None):
     import multiprocessing as mp
+    procs = procs or int(os.environ.get("VERIF_PROCS") or 16)
     ctx = mp.get_context("fork")
     with ctx.Pool(procs, initializer=init_fn) as pool:
         return pool.map(fn, items, chunksize=max(1, len(items) // (procs * 8) or 1))
